@@ -63,7 +63,7 @@ class C06(HistoryProp):
     level = "exploration"
     quick_runs, thorough_runs = 400, 8000
     quick_budget_s, thorough_budget_s = 170, 1800
-    families = [f for f in hist.FAMILIES if f not in ("destructive", "human_overwrites_ai")] + ["destructive"]
+    families = [f for f in hist.FAMILIES if f not in ("destructive", "human_overwrites_ai", "ci_rewrite")] + ["destructive"]
     rule = ("one run = the same concrete op list executed in lock step in a plain-git world and a wrapper world "
             "(identical user hooks in both): one history family (commits, rebase forms, cherry-pick, amend, merge, "
             "squash, reset, stash, switch, destructive commands, partial commits) interleaved with command lines from a "
